@@ -5,7 +5,7 @@
    the token tree it was written from, for each renderer's token sets. *)
 From Coq Require Import ZArith List Bool Lia.
 From Mistletoe Require Import Base.Sx Base.PyStr Base.PyText Gen.GenTables Gen.GenConfig Model.Tree Model.CoreTokens Model.Block Model.Build
-     Model.Parser Proofs.PlainProse Proofs.Prose Proofs.ProseLines Proofs.ListLaw Proofs.FenceLaw Spec.Fragment Proofs.FragmentP Proofs.EmphSimple Proofs.InertProse.
+     Model.Parser Proofs.PlainProse Proofs.Prose Proofs.ProseLines Proofs.ListLaw Proofs.FenceLaw Spec.Fragment Proofs.FragmentP Proofs.EmphSimple Proofs.InertProse Proofs.RefSentence.
 Import ListNotations.
 Local Open Scope Z_scope.
 
@@ -61,13 +61,14 @@ Lemma deep_line : forall f t, (depth t <= f)%nat -> wf_b t = true -> exists l, I
 Proof.
   induction f as [|f IH].
   - intros t Hd Hw.
-    destruct t as [c body more|ch n content|ts|mk pad ts|mk pad ts bl next|lv hc hb|rc rn|e0 epre ech edbl ew epost]; [| |cbn [depth] in Hd; lia|cbn [depth] in Hd; lia|cbn [depth] in Hd; lia| | |].
+    destruct t as [c body more|ch n content|ts|mk pad ts|mk pad ts bl next|lv hc hb|rc rn|e0 epre ech edbl ew epost|l0 lpre lw ldest lpost]; [| |cbn [depth] in Hd; lia|cbn [depth] in Hd; lia|cbn [depth] in Hd; lia| | | |].
     + exists (SLine 0 c body). split; [left; reflexivity|cbn [depth weight]; lia].
     + exists (SLine 0 ch (repeat ch (n - 1))). split; [left; reflexivity|cbn [depth weight]; lia].
     + eexists. split; [left; reflexivity|cbn [depth weight]; lia].
     + eexists. split; [left; reflexivity|cbn [depth weight]; lia].
     + eexists. split; [left; reflexivity|cbn [depth weight]; lia].
-  - intros t. induction t as [c body more|ch n content|ts|mk pad ts|mk pad ts bl next IHn|lv hc hb|rc rn|e0 epre ech edbl ew epost]; intros Hd Hw.
+    + eexists. split; [left; reflexivity|cbn [depth weight]; lia].
+  - intros t. induction t as [c body more|ch n content|ts|mk pad ts|mk pad ts bl next IHn|lv hc hb|rc rn|e0 epre ech edbl ew epost|l0 lpre lw ldest lpost]; intros Hd Hw.
     + exists (SLine 0 c body). split; [left; reflexivity|cbn [depth weight]; lia].
     + exists (SLine 0 ch (repeat ch (n - 1))). split; [left; reflexivity|cbn [depth weight]; lia].
     + cbn [wf_b] in Hw. repeat rewrite andb_true_iff in Hw. destruct Hw as [[Hs Hall] Hg].
@@ -88,6 +89,7 @@ Proof.
                       negb (thematic_start (item_first_line mk pad (join_blank (map spell ts)))) = true) by (repeat rewrite andb_true_iff; exact Hw).
         destruct (item_deep_line f IH mk pad ts ltac:(lia) Hw') as (l & Hl & Wl).
         exists l. split; [|exact Wl]. cbn [spell]. apply in_or_app. left. exact Hl.
+    + eexists. split; [left; reflexivity|cbn [depth weight]; lia].
     + eexists. split; [left; reflexivity|cbn [depth weight]; lia].
     + eexists. split; [left; reflexivity|cbn [depth weight]; lia].
     + eexists. split; [left; reflexivity|cbn [depth weight]; lia].
@@ -113,15 +115,15 @@ Qed.
 (* Document(lines) on the spelled text of a tree *)
 Theorem fragment_document cfg t :
   fragment_config (cfg_block cfg) = true -> prose_spans (cfg_span cfg) = true -> emph_spans (cfg_span cfg) = true ->
-  inert_spans (cfg_span cfg) = true -> wf_b t = true ->
+  inert_spans (cfg_span cfg) = true -> ref_spans (cfg_span cfg) = true -> wf_b t = true ->
   fst (fst (parse_lines cfg (text_of (spell t)))) = Document [tok_of false t].
 Proof.
-  intros Hc Hq He Hi Hw. pose proof (fuel_suffices t Hw) as Hf.
+  intros Hc Hq He Hi Hr Hw. pose proof (fuel_suffices t Hw) as Hf.
   unfold parse_lines, block_phase.
   destruct (depth_fuel (text_of (spell t))) as [|f] eqn:Ef; [lia|].
   rewrite (fragment_tree_cfg (cfg_block cfg) t f 1 (mkPs true) Hc Hw ltac:(lia)). cbn [fst].
   unfold Build.make_tokens. cbn [flat_map].
-  rewrite (build_fragment (cfg_span cfg) (cfg_keep_defs cfg) _ false Hq He Hi (footnotes_of_fragment false t 1) f t 1 ltac:(lia) Hw). reflexivity.
+  rewrite (build_fragment (cfg_span cfg) (cfg_keep_defs cfg) _ false Hq He Hi Hr (footnotes_of_fragment false t 1) f t 1 ltac:(lia) Hw). reflexivity.
 Qed.
 
 Theorem fragment_document_markdown t :
@@ -132,7 +134,7 @@ Proof.
   destruct (depth_fuel (text_of (spell t))) as [|f] eqn:Ef; [lia|].
   rewrite (fragment_tree_markdown t f 1 (mkPs true) Hw ltac:(lia)). cbn [fst].
   unfold Build.make_tokens. cbn [flat_map].
-  rewrite (build_fragment span_types_markdown true _ true eq_refl eq_refl eq_refl (footnotes_of_fragment true t 1) f t 1 ltac:(lia) Hw). reflexivity.
+  rewrite (build_fragment span_types_markdown true _ true eq_refl eq_refl eq_refl eq_refl (footnotes_of_fragment true t 1) f t 1 ltac:(lia) Hw). reflexivity.
 Qed.
 
 (* ---- a whole document: a sequence of blocks separated by blank lines ---- *)
@@ -154,17 +156,17 @@ Qed.
 
 Theorem fragment_seq_document cfg ts :
   fragment_config (cfg_block cfg) = true -> prose_spans (cfg_span cfg) = true -> emph_spans (cfg_span cfg) = true ->
-  inert_spans (cfg_span cfg) = true -> seq_ok_b ts = true -> forallb wf_b ts = true ->
+  inert_spans (cfg_span cfg) = true -> ref_spans (cfg_span cfg) = true -> seq_ok_b ts = true -> forallb wf_b ts = true ->
   fst (fst (parse_lines cfg (text_of (join_blank (map spell ts))))) = Document (tok_seq false ts).
 Proof.
-  intros Hc Hq He Hi Hs Hw.
+  intros Hc Hq He Hi Hr Hs Hw.
   assert (Hne : ts <> []) by (destruct ts; [discriminate|discriminate]).
   pose proof (fuel_suffices_seq ts Hne Hw) as Hf.
   unfold parse_lines, block_phase.
   destruct (depth_fuel (text_of (join_blank (map spell ts)))) as [|f] eqn:Ef; [lia|].
   rewrite (fragment_seq_cfg (cfg_block cfg) ts f 1 (mkPs true) Hc Hs Hw (seq_depth_all ts f ltac:(lia))). cbn [fst].
   unfold Build.make_tokens.
-  rewrite (build_seq (cfg_span cfg) (cfg_keep_defs cfg) _ false Hq He Hi (footnotes_of_seq false ts 1) ts 1 Hw). reflexivity.
+  rewrite (build_seq (cfg_span cfg) (cfg_keep_defs cfg) _ false Hq He Hi Hr (footnotes_of_seq false ts 1) ts 1 Hw). reflexivity.
 Qed.
 
 Theorem fragment_seq_document_markdown ts :
@@ -178,10 +180,10 @@ Proof.
   destruct (depth_fuel (text_of (join_blank (map spell ts)))) as [|f] eqn:Ef; [lia|].
   rewrite (fragment_seq_markdown ts f 1 (mkPs true) Hs Hw (seq_depth_all ts f ltac:(lia))). cbn [fst].
   unfold Build.make_tokens.
-  rewrite (build_seq span_types_markdown true _ true eq_refl eq_refl eq_refl (footnotes_of_seq true ts 1) ts 1 Hw). reflexivity.
+  rewrite (build_seq span_types_markdown true _ true eq_refl eq_refl eq_refl eq_refl (footnotes_of_seq true ts 1) ts 1 Hw). reflexivity.
 Qed.
 
 Lemma document_configs :
-  forallb (fun c => fragment_config (cfg_block c) && prose_spans (cfg_span c) && emph_spans (cfg_span c) && inert_spans (cfg_span c))
+  forallb (fun c => fragment_config (cfg_block c) && prose_spans (cfg_span c) && emph_spans (cfg_span c) && inert_spans (cfg_span c) && ref_spans (cfg_span c))
           [cfg_html; cfg_html_nohtml; cfg_latex; cfg_mathjax; cfg_default] = true.
 Proof. vm_compute. reflexivity. Qed.
